@@ -114,6 +114,9 @@ class FillComputeSeq(lena_sequence.LenaSequence):
         # to do: do we check for exceptions like above
         # or skip like here?
         self._after = sequence.Sequence(*after)
+        # these sequences contain only data elements, and they have set
+        # their context without the static context of this sequence
+        self._init_context()
 
     def fill(self, value):
         """Fill *self* with *value*.
